@@ -249,6 +249,10 @@ func (k Keeper) verifyEthBlockProposal(sdkctx sdk.Context, msg *types.MsgNewEthB
 		return errors.New("empty payload")
 	}
 
+	if err := payload.Validate(); err != nil {
+		return err
+	}
+
 	k.Logger().Info("Verify new executable payload", payload.LogKeyVals()...)
 	eg, egctx := errgroup.WithContext(sdkctx)
 	eg.Go(func() error {
